@@ -96,21 +96,29 @@ def run(rep, pdb, tier):
             tgt = a.target
             r = for_range(ctx, a.loops[0])
             i = r[0]
-            acc = ("idx", tgt, i)
+            # the two contributions may share one loop over 0..=max degree (each guarded by its own degree) or have a loop
+            # each over 0..=own degree, in either order: self's must come first only because the accumulator starts at zero
+            rb_ = for_range(ctx, b.loops[0])
+            ib = rb_[0]
+            acc, accb = ("idx", tgt, i), ("idx", tgt, ib)
             pa = a.value == ("op", "+", acc, ("idx", CO0, i)) and a.index == i
-            pb = b.value == ("op", sym, acc, ("idx", CO1, i)) and b.index == i and b.target == tgt
+            pb = b.value == ("op", sym, accb, ("idx", CO1, ib)) and b.index == ib and b.target == tgt
             rep.add("polarity/%s" % tr, "self's coefficients enter positively, rhs's with the trait's sign, both into the accumulator coefficient", pa and pb, a.node,
                     "self: %s ; rhs: %s" % (show(a.value, ctx), show(b.value, ctx)))
-            rep.add("co-index/%s" % tr, "target and both sources use the same index i", a.index == i and b.index == i and pa and pb, a.node, "")
+            rep.add("co-index/%s" % tr, "target and source of each contribution use the same index", a.index == i and b.index == ib and pa and pb, a.node, "")
             # guards: i <= own degree
             fa, fb = facts(ctx, a.node), facts(ctx, b.node)
             ga = norm_cmp("<=", i, DEG0) in fa
-            gb = norm_cmp("<=", i, DEG1) in fb
+            gb = norm_cmp("<=", ib, DEG1) in fb
+            split = a.loops[0] is not b.loops[0]
             # allocation: max(deg, deg')+1 zeros, loop 0..=degree
             alloc = [e for e in effs if e.kind == "assign" and e.target == tgt]
             dvar = r[2]
+            if split and alloc and alloc[0].value[0] == "call" and len(alloc[0].value) == 4:
+                dvar = lin_add(alloc[0].value[3], num(-1))      # separate loops over 0..=own degree: the allocation carries the maximum
             okl = len(alloc) == 1 and alloc[0].value[0] == "call" and str(alloc[0].value[1]).endswith("from_elem") and is_zero_term(alloc[0].value[2]) and \
-                alloc[0].value[3] == lin_add(dvar, num(1)) and r[1] == num(0) and r[3] and not r[4]
+                alloc[0].value[3] == lin_add(dvar, num(1)) and r[1] == num(0) and r[3] and not r[4] and \
+                (not split or (r[2] == DEG0 and rb_[1:5] == (num(0), DEG1, True, False)))
             if dvar[0] == "call" and str(dvar[1]).endswith("::max") and len(dvar) == 4:
                 # `let degree = if a < b { b } else { a }` / max(a, b): the maximum as an expression
                 ismax = gmax = {dvar[2], dvar[3]} == {DEG0, DEG1}
@@ -133,11 +141,20 @@ def run(rep, pdb, tier):
             rep.missing("polarity/%s" % key, rule, "not found")
             continue
         ctx = Ctx.for_fn(pdb, fn)
-        asg = [e for e in effects(pdb, ctx) if e.kind == "assign" and e.target[0] == "field" and e.target[2] == "coeffs"]
-        ok = len(asg) == 1
+        effs_ = effects(pdb, ctx)
+        asg = [e for e in effs_ if e.kind == "assign" and e.target[0] == "field" and e.target[2] == "coeffs"]
+        pushes = [e for e in effs_ if e.kind == "push" and len(e.loops) == 1]
+        ok = len(asg) == 1 and len(pushes) == 1
         if ok:
-            m = closure_of_map(ctx, asg[0].value, fn)
-            ok = m is not None and m[0] == CO0 and (m[1] == ("neg", m[2]) if want == "neg" else m[1] in (("op", "*", m[2], P(1)), ("op", "*", P(1), m[2])))
+            # (a `.iter().map(..).collect()` is canonicalised to this loop of pushes into a fresh Vec)
+            pu = pushes[0]
+            r = for_range(ctx, pu.loops[0])
+            x = ("idx", CO0, r[0]) if r else None
+            tb = ctx.binds.get(pu.target[1]) if pu.target[0] == "var" else None
+            ti = ctx.term(tb.init) if tb is not None and tb.init is not None else None
+            fresh = ti is not None and ti[0] == "call" and str(ti[1]).endswith("::new") and len(ti) == 2
+            val_ok = pu.value == ("neg", x) if want == "neg" else pu.value in (("op", "*", x, P(1)), ("op", "*", P(1), x))
+            ok = r is not None and r[1:5] == (num(0), LEN(CO0), False, False) and val_ok and fresh and asg[0].value == pu.target
             tail = fn["body"].get("expr")
             ok = ok and tail is not None and ctx.term(tail) == asg[0].target[1]
         rep.add("polarity/%s" % key, rule, ok, fn["body"], "", where=loc(fn["body"]))
